@@ -55,6 +55,9 @@ class AutoSerialize:
         # Avoid treating numpy arrays/tensors/containers as scalars
         if isinstance(value, (np.ndarray, torch.Tensor, list, tuple, dict, set)):
             return False
+        # np.timedelta64 subclasses np.signedinteger but is not a plain number
+        if isinstance(value, np.timedelta64):
+            return False
         # Python numeric types and numpy scalar types
         return isinstance(value, (int, float, bool, np.integer, np.floating, np.bool_))
 
@@ -403,7 +406,17 @@ class AutoSerialize:
             group.attrs[name] = value
         elif hasattr(value, "dtype") and hasattr(value, "item"):
             # Handle numpy scalar types (np.float32, np.int64, etc.)
-            group.attrs[name] = value.item()
+            item = value.item()
+            if isinstance(value, np.generic) and (
+                isinstance(value, (np.datetime64, np.timedelta64))
+                or not isinstance(item, (int, float, str, bool, type(None)))
+            ):
+                # complex, bytes, datetime64, timedelta64 and void scalars have no JSON form:
+                # keep them as 0-d arrays and flag them so they load as NumPy scalars again
+                self._write_ndarray(group, name, np.asarray(value), compressors)
+                group.attrs[f"{name}.np_scalar"] = True
+            else:
+                group.attrs[name] = item
         elif hasattr(value, "__fspath__") or str(type(value)).startswith("<class 'pathlib."):
             # Handle pathlib.Path objects and other path-like objects
             group.attrs[name] = str(value)
@@ -527,6 +540,7 @@ class AutoSerialize:
                 or name in ("_autoserialize_skip_names", "_autoserialize_skip_types")
                 or name.endswith(".torch_save")
                 or name.endswith(".is_path")
+                or name.endswith(".np_scalar")
             ):
                 continue  # Skip metadata/flags
             if name in skip_names:
@@ -552,6 +566,8 @@ class AutoSerialize:
                 v = arr_np
                 if group.attrs.get(f"{ds}.torch_save", False):
                     v = torch.from_numpy(v)
+                elif group.attrs.get(f"{ds}.np_scalar", False):
+                    v = arr_np[()]
             if type(v) in skip_types:
                 continue
             setattr(obj, ds, v)
@@ -841,6 +857,8 @@ class AutoSerialize:
         # Helper to handle optional torch tensor restoration
         def maybe_tensor(group, key):
             arr = AutoSerialize._read_array_np(group, key)
+            if group.attrs.get(f"{key}.np_scalar"):
+                return arr[()]
             return torch.from_numpy(arr) if group.attrs.get(f"{key}.torch_save") else arr
 
         if ctype in ("list", "tuple"):
@@ -1084,6 +1102,7 @@ class AutoSerialize:
                     key == "_container_type"
                     or key.endswith(".torch_save")
                     or key.endswith(".is_path")
+                    or key.endswith(".np_scalar")
                 ):
                     continue
                 val = group.attrs[key]
